@@ -337,12 +337,12 @@ def x_axis_devs(xs, start_w, stop_w, spacing_w):
     return []
 
 
-def check_model(model, data, cc):
+def check_model(model, data, cc, fobj=None):
     """data = bytes of the file.  All file oracles."""
     ReadBIT, pRepCode, File = _mods()
     passes = model['passes']
     try:
-        got = ReadBIT.create_bit_frame_array_from_file(io.BytesIO(data))
+        got = ReadBIT.create_bit_frame_array_from_file(io.BytesIO(data) if fobj is None else fobj)
     except Exception as err:  # noqa
         cc.unexpected(err)
         return
@@ -488,6 +488,36 @@ def check_file(case, cc):
     check_model(model, data, cc)
 
 
+def handle_histories():
+    return st.builds(lambda m, ops: {'model': m, 'ops': ops},
+                     bit.bit_models(max_passes=2, max_channels=3, max_frames=8, min_frames=1, endings=('standard',)),
+                     st.lists(st.sampled_from(['identify', 'read']), min_size=2, max_size=4))
+
+
+def check_handle_history(case, cc):
+    """The library's own calls on ONE open file object: is_bit_file() (what the batch tools call first) and the reader, in
+    any order and repeatedly.  Every read must give the model (all file oracles)."""
+    ReadBIT, _p, _f = _mods()
+    model, ops = case['model'], case['ops']
+    try:
+        data = bit.encode_bit_file(model)
+    except bit.BitModelError as err:
+        raise HarnessError('generator produced an un-encodable model: %s' % err)
+    cc.nt('read' in ops[1:])
+    cc.cls('handle-history:read-after-identify', any(a == 'identify' and b == 'read' for a, b in zip(ops, ops[1:])))
+    cc.cls('handle-history:read-twice', ops.count('read') >= 2)
+    fobj = io.BytesIO(data)
+    for op in ops:
+        if op == 'identify':
+            try:
+                ReadBIT.is_bit_file(fobj)     # the answer is C20's subject
+            except Exception as err:  # noqa
+                cc.unexpected(err)
+                return
+        else:
+            check_model(model, data, cc, fobj)
+
+
 def check_bundled(case, cc):
     path = os.path.join(REPO, case['path'])
     with open(path, 'rb') as f:
@@ -541,6 +571,7 @@ def parts(tier):
         HypPart('buffers', BUFFERS, check_buffer, 800, 8000),
         HypPart('files-small', small_files(), check_file, 1600, 16000),
         HypPart('files', general_files(), check_file, 2000, 12800),
+        HypPart('handle-history', handle_histories(), check_handle_history, 600, 6000),
     ]
 
 
